@@ -100,3 +100,8 @@ def gen_value(rng, data_only=False, allow_real=True):
     if k == "null":
         return ber.NULL, NULLV, k
     return {"nso": ber.NOSUCHOBJECT, "nsi": ber.NOSUCHINSTANCE, "eomv": ber.ENDOFMIBVIEW}[k], EXC, k
+
+
+def arcs_norm(text):
+    """arcs denoted by an accepted OID text (`+` and leading zeros tolerated)"""
+    return tuple(int(x) for x in text.split("."))
